@@ -55,4 +55,18 @@ theorem translate_to_iso0_iso2 (b : Bytes) (pan pin : PyStr)
     (∃ b2, encodePinblockIso2 pin = .ok b2 ∧ decodePinblockIso2 b2 = .ok pin) :=
   ⟨iso0_roundtrip pin pan' (decoded_pin_is_pinOk b pan pin h) hp', iso2_roundtrip pin (decoded_pin_is_pinOk b pan pin h)⟩
 
+/-- **translation into format 3 / format 4** (for every value of the random fill): the PIN any decoder returned is re-encoded in
+format 3 under any admissible PAN, or enciphered in format 4 under any AES key and PAN of 1..19 digits, and the next hop
+recovers the same PIN -/
+theorem translate_to_iso3_iso4 (c : Ciphers) (hc : c.Lawful) (b : Bytes) (pan pin : PyStr)
+    (h : decodePinblockIso0 b pan = .ok pin ∨ decodePinblockIso2 b = .ok pin ∨ decodePinblockIso3 b pan = .ok pin ∨
+         decodePinFieldIso4 b = .ok pin)
+    (pan' : PyStr) (hp' : panOk13 pan' = true) (draws : Bytes) (fill : PyStr) (hd : choices 10 draws = some (fill, []))
+    (key rnd : Bytes) (pan4 : PyStr) (hk : aesKeyOk key = true) (hr : rnd.length = 8)
+    (h1 : 1 ≤ pan4.length) (h19 : pan4.length ≤ 19) (hn : asciiNumeric pan4 = true) :
+    (∃ b3, encodePinblockIso3 pin pan' draws = .ok b3 ∧ decodePinblockIso3 b3 pan' = .ok pin) ∧
+    (∃ b4, encipherPinblockIso4 c key pin pan4 rnd = .ok b4 ∧ decipherPinblockIso4 c key b4 pan4 = .ok pin) :=
+  ⟨iso3_roundtrip pin pan' draws fill (decoded_pin_is_pinOk b pan pin h) hp' hd,
+   iso4_encipher_roundtrip c hc key pin pan4 rnd hk (decoded_pin_is_pinOk b pan pin h) hr h1 h19 hn⟩
+
 end Psec.Props.Translate
